@@ -546,8 +546,11 @@ class UnionProvider(LoaderProvider, DumperProvider):
         literal_dumper: Dumper,
         literal_cases: Sequence[Any],
     ) -> Dumper:
+        # members of other cases can be equal to a literal value (``Decimal(1) == 1``)
+        literal_types = tuple({type(case) for case in literal_cases})
+
         def union_dumper_with_literal(data):
-            if data in literal_cases:
+            if isinstance(data, literal_types) and data in literal_cases:
                 return literal_dumper(data)
             return dumper_type_dispatcher.dispatch(type(data))(data)
 
